@@ -17,6 +17,9 @@
     * `handed_length`, `handed_kth` – the list handed to `Results.aggregate` has length Σ reps and
                                      its k-th element is the simulation of the k-th yielded item
                                      (in the state left by the k−1 earlier simulations);
+    * `handed_independent_if_state_preserved` – if no simulation modifies the shared state (configured
+                                     initial state), every handed result is the simulation of its own item
+                                     from that state (hypothesis checked on the real emu-sv runs);
     * `aggregate_defined`          – `aggregate` raises iff Σ reps = 0; one trajectory is returned as is;
     * `bitstring_totals`           – joined counter has total (Σ reps) × shots when every run
                                      returns `shots` samples; `bitstring_counts_add` per key;
@@ -77,6 +80,16 @@ theorem handed_kth {S σ ρ : Type} (run : S → σ → ρ × S) (st : S) (sampl
 theorem handed_stateless {S σ ρ : Type} (f : σ → ρ) (st : S) (samples : List (σ × Int)) :
     handedToAggregate (fun st sd => (f sd, st)) st samples = (expand samples).map f := by
   unfold handedToAggregate; rw [runLoop_fst, List.nil_append, runSpec_stateless]
+
+/-- **Independent trajectories**: when every simulation leaves the shared state `st` (the
+configured initial state and anything else the config carries) as it found it, the k-th result
+handed to `aggregate` is the simulation of the k-th item started from that very `st` — the
+aggregate combines Σ reps independent simulations of the configured problem. The hypothesis is
+what the harness checks on the real back-ends (initial state bit-identical before/after a run). -/
+theorem handed_independent_if_state_preserved {S σ ρ : Type} (run : S → σ → ρ × S) (st : S)
+    (samples : List (σ × Int)) (h : ∀ sd ∈ expand samples, (run st sd).2 = st) :
+    handedToAggregate run st samples = (expand samples).map (fun sd => (run st sd).1) := by
+  unfold handedToAggregate; rw [runLoop_fst, List.nil_append, runSpec_preserving run st _ h]
 
 example : handedToAggregate (fun (st : Nat) (sd : String) => ((st, sd), st + 1)) 0
     [("a", (2 : Int)), ("b", 1)] = [(0, "a"), (1, "a"), (2, "b")] := by decide
